@@ -286,8 +286,10 @@ WHOLE = [
     # name, chrony script, seconds, phc schedule, fake args, daemon args, drift ppb, phc configured, refmatch
     ("plain-outage", "answer:6,gone:7,answer:4", 18, "none", "--vary --delay-ms 40", ["--max-drift-rate", "7"], 7000, False, False),
     ("phc-reference", "answer:4,silent:2,answer:4,silent:2,answer:4,silent:2,answer:3", 22, "0=4321;5=1234567890;11=rm;17=555",
-     f"--vary --delay-ms 25 --refid {PHC0}", ["-r", "PHC0", "-i", "eth9", "-m", "50"], 50000, True, True),
+     f"--vary --delay-ms 25 --hold-ref 8 --refid {PHC0}", ["-r", "PHC0", "-i", "eth9", "-m", "50"], 50000, True, True),
     ("phc-not-reference", "answer:4,silent:2,answer:4", 11, "0=4321;5=rm", "--vary", ["-r", "PHC0", "-i", "eth9"], 1000, True, False),
+    # a slow answer followed by silence (chronyd restarting): the as-of instant must still precede the answered request
+    ("slow-then-silent", "slowsilent:13,answer:3", 17, "none", "--vary", ["--max-drift-rate", "3"], 3000, False, False),
 ]
 WHOLE_T = [
     ("unsync-then-sync", "leap3:4,answer:4,leap3:3,gone:7", 19, "none", "--vary --delay-ms 10", ["--max-drift-rate", "4294967"], 4294967000, False, False),
@@ -356,7 +358,7 @@ def whole_runs(rep, tier, props):
                     phcv = -1 if ch["value"] == "rm" else int(ch["value"])
                 elif ch["mono_ns"] <= a["ans_ns"] + 600_000_000:
                     ambiguous = True
-            answers.append({"req_us": us_dn(a["req_ns"]), "ans_us": us_up(a["ans_ns"]), "sync": a["mode"] == "answer", "refmatch": refmatch,
+            answers.append({"req_us": us_dn(a["req_ns"]), "ans_us": us_up(a["ans_ns"]), "sync": a["mode"] in ("answer", "slowsilent"), "refmatch": refmatch,
                             "phcv": phcv, "corr": a["corr"], "delay": a["delay"], "disp": a["disp"]})
         if ambiguous and phc_conf and refmatch:
             raise ToolError(f"whole-process run '{name}': a PHC file change fell next to an answer; the observation is ambiguous (loaded machine?)")
